@@ -18,7 +18,10 @@
 //!            incarnation: no listener at all -> `ConnectionRefused`; listener
 //!            there throughout and the backlog model says the SYN found room
 //!            -> `Ok`; every delivered SYN found the backlog full -> `TimedOut`;
-//!            `AddrInUse` only when the ephemeral range is exhausted; no other
+//!            an immediate failure for lack of a source port (`AddrInUse`, or
+//!            `AddrNotAvailable` = Linux EADDRNOTAVAIL: the property does not
+//!            name the kind) only when the ephemeral range is exhausted, and it
+//!            leaves no socket behind (RECLAIM counts); no other
 //!            error kind; a connect always resolves once the wire is quiet.
 //! * BACKLOG  on live-safe runs the number of connections a listener has
 //!            handed to connectors (`Ok`, still open) but not yet to `accept`
@@ -687,8 +690,13 @@ impl<'a> Sim<'a> {
                 att.result = Res::Err(e.kind());
                 att.client_ended = true;
                 self.out.label(format!("connect:immediate-err:{:?}", e.kind()));
-                if e.kind() == std::io::ErrorKind::AddrInUse {
-                    self.check_exhausted(h, dst.is_ipv6(), dst);
+                // The only legitimate immediate failure is "no ephemeral port free for the implicit
+                // bind".  The property does not name its error kind: AddrInUse (the port space is
+                // used up) and AddrNotAvailable (Linux connect(2): EADDRNOTAVAIL) are both admitted
+                // (every host owns an address of either family, so AddrNotAvailable cannot mean
+                // "no source address").  That the range IS exhausted is asserted for both.
+                if matches!(e.kind(), std::io::ErrorKind::AddrInUse | std::io::ErrorKind::AddrNotAvailable) {
+                    self.check_exhausted(h, dst.is_ipv6(), dst, e.kind());
                 } else {
                     self.fail("connect:unexpected-immediate-error", format!("connect({dst}) from host {h}: {e:?}"));
                 }
@@ -754,8 +762,9 @@ impl<'a> Sim<'a> {
         self.out.label(if folded { "connect:folded" } else { "connect:cross-host" });
     }
 
-    /// `AddrInUse` from connect is only legitimate when every port of the range is taken.
-    fn check_exhausted(&mut self, h: usize, v6: bool, dst: SocketAddr) {
+    /// An immediate `AddrInUse` / `AddrNotAvailable` from connect (no source port) is only legitimate
+    /// when every port of the range is taken.
+    fn check_exhausted(&mut self, h: usize, v6: bool, dst: SocketAddr, kind: std::io::ErrorKind) {
         let lo = EPH_BASE;
         let hi = EPH_BASE + self.sc.eph_len[h] - 1;
         let mut used: BTreeSet<u16> = BTreeSet::new();
@@ -787,8 +796,9 @@ impl<'a> Sim<'a> {
         }
         self.out.label("connect:ephemeral-range-exhausted");
         if (used.len() as u16) < self.sc.eph_len[h] {
-            let d = format!("connect({dst}) on host {h} failed with AddrInUse although only ports {used:?} of {lo}..={hi} are in use");
-            self.fail("connect:addr-in-use-while-ephemeral-ports-are-free", d);
+            let d = format!("connect({dst}) on host {h} failed with {kind:?} although only ports {used:?} of {lo}..={hi} are in use");
+            let sig = if kind == std::io::ErrorKind::AddrInUse { "connect:addr-in-use-while-ephemeral-ports-are-free" } else { "connect:addr-not-available-while-ephemeral-ports-are-free" };
+            self.fail(sig, d);
         }
     }
 
@@ -2174,6 +2184,7 @@ fn check(tier: Tier, seed: u64) -> i32 {
             "a half-open (SYN_RCVD) child cannot outlive a quiescence point: it is established by the handshake ACK, reset by the answer to its SYN-ACK, or runs out of SYN-ACK retransmissions, and each retransmission breaks the idle period (Q exceeds the whole retransmit budget); hence a connector whose connect never returned Ok (cancelled, timed out) holds no backlog slot and burdens no 4-tuple after a quiescence point. The re-certification is skipped for a listener for which netstat still shows a SYN_RCVD child",
             "calm era (`calm_after`): after the chosen quiescence point every packet is delivered in the round it is emitted; connects started there are judged by the liveness half of the connect clause even if the plan before that point was lossy, provided their 4-tuple is unburdened and the listener's occupancy was re-certified exactly at a quiescence point (otherwise only bounds apply, as before)",
             "Listen results are not judged here (C17 does); a failed bind just leaves the model without that listener",
+            "a connect that cannot get a source port (ephemeral range of its family exhausted) fails on its first poll; the property does not name the error kind of that implicit bind, so AddrInUse and AddrNotAvailable are both accepted, but only when every port of the range really is in use (otherwise connect:addr-*-while-ephemeral-ports-are-free); any other immediate error is a violation; both hosts own an IPv4 and an IPv6 address, so AddrNotAvailable cannot stand for a missing source address",
             "findings F-C13-1..5 are tolerated only while known_findings.json lists them with status \"known\", and then only on the objects the model attributes to them (counted under excluded_by_known_finding); with status \"fixed\" the full clause is asserted again; their committed probe scenarios run with `strict` and assert the full clause; C13_STRICT=1 switches every tolerance off for a whole run (used to validate fixes: with the five proposed patches applied 1.2 million strict cases pass)",
         ],
     )
